@@ -1005,6 +1005,11 @@ func (vfs *OrefaFS) stat(path, op string) (fs.FileInfo, error) {
 		return nil, &fs.PathError{Op: op, Path: path, Err: vfs.err.NotADirectory}
 	}
 
+	if !child.mode.IsDir() && len(path) > 1 && vfs.IsPathSeparator(path[len(path)-1]) {
+		// a path ending with a separator can only lead to a directory.
+		return nil, &fs.PathError{Op: op, Path: path, Err: vfs.err.NotADirectory}
+	}
+
 	// the name is the last element of the path as it was given ("." for ".", the separator for a root directory).
 	fst := child.fillStatFrom(vfs.Base(path))
 
